@@ -1,7 +1,7 @@
 (* C15 — model of the elastic-quota admission webhook's topology record
    (pkg/webhook/elasticquota/quota_topology.go, quota_topology_check.go, pod_check.go,
-   apis/extension/elastic_quota.go), feature gates ElasticQuotaEnableUpdateResourceKey and
-   ElasticQuotaGuaranteeUsage at their default (off).
+   apis/extension/elastic_quota.go). The feature gate ElasticQuotaEnableUpdateResourceKey is a
+   constant component of the state ([gate_keys]), and so is ElasticQuotaGuaranteeUsage ([gate_guar]).
    Executable, total, no proofs in this file.
 
    Names are integers (the harness maps them to strings injectively):
@@ -85,6 +85,16 @@ Definition oadd (x y : option Z) : option Z :=
   end.
 Definition radd (a b : reslist) : reslist := rzip oadd a b.
 
+(* quotav1.Max: union of the keys, the larger value *)
+Definition omax (x y : option Z) : option Z :=
+  match x, y with
+  | None, None => None
+  | Some a, None => Some a
+  | None, Some b => Some b
+  | Some a, Some b => Some (Z.max a b)
+  end.
+Definition rmax (a b : reslist) : reslist := rzip omax a b.
+
 (* quotav1.IsNegative: some declared value below zero *)
 Definition is_neg (o : option Z) : bool := match o with Some v => v <? 0 | None => false end.
 Definition rnegative (r : reslist) : bool := existsb is_neg r.
@@ -129,7 +139,8 @@ Record quota := mkQuota {
   q_strict : list Z;     (* its keys *)
   q_used : reslist;      (* status.used *)
   q_min : reslist;
-  q_max : reslist }.
+  q_max : reslist;
+  q_guar : reslist }.    (* guaranteed annotation (written by the scheduler) *)
 
 (* extension.GetAnnotationQuotaNamespaces: unparsable -> none *)
 Definition ann_ns (q : quota) : list Z := if q_ns_bad q then [] else q_ns q.
@@ -141,18 +152,21 @@ Definition parent_name (q : quota) : Z :=
 (* QuotaInfo (the fields the checks and the summary use) *)
 Record info := mkInfo {
   i_parent : Z; i_is_parent : bool; i_force : bool; i_tree : Z; i_tree_root : bool;
-  i_min : reslist; i_max : reslist }.
+  i_min : reslist; i_max : reslist; i_guar : reslist }.
 
 Definition info_of (q : quota) : info :=
-  mkInfo (parent_name q) (q_is_parent q) (q_force q) (q_tree q) (q_tree_root q) (q_min q) (q_max q).
+  mkInfo (parent_name q) (q_is_parent q) (q_force q) (q_tree q) (q_tree_root q) (q_min q) (q_max q)
+         (q_guar q).
 
 (* quotaTopology *)
 Record topo := mkTopo {
+  gate_keys : bool;               (* feature gate ElasticQuotaEnableUpdateResourceKey (never changes) *)
+  gate_guar : bool;               (* feature gate ElasticQuotaGuaranteeUsage (never changes) *)
   infos : list (Z * info);        (* quotaInfoMap *)
   hier : list (Z * list Z);       (* quotaHierarchyInfo *)
   nsmap : list (Z * Z) }.         (* namespaceToQuotaMap *)
 
-Definition init_topo : topo := mkTopo [] [(ROOT, [])] [].
+Definition init_topo (g : bool * bool) : topo := mkTopo (fst g) (snd g) [] [(ROOT, [])] [].
 
 (* a pod of the environment: quota-name label (-1 = none) and namespace *)
 Notation pod := (Z * Z)%type.
@@ -228,15 +242,19 @@ Definition parent_ok (s : topo) (name parent : Z) : bool :=
            && anc_ok (infos s) (S (length (infos s))) name parent
        end.
 
-(* ---------- checkSubAndParentGroupQuotaKey (enableUpdateResourceKey = false) ---------- *)
+(* ---------- checkSubAndParentGroupQuotaKey ---------- *)
+(* gate off: the max keys of parent and child are the same; gate on: the child's are included *)
+Definition max_keys_ok (g : bool) (p c : reslist) : bool :=
+  if g then keys_incl p c else keys_same p c.
+
 Definition keys_ok (s : topo) (name : Z) (new : info) : bool :=
   (if i_parent new =? ROOT then true
    else match find (i_parent new) (infos s) with
         | None => false
-        | Some p => keys_same (i_max p) (i_max new) && keys_incl (i_min p) (i_min new)
+        | Some p => max_keys_ok (gate_keys s) (i_max p) (i_max new) && keys_incl (i_min p) (i_min new)
         end)
   && forallb (fun c => match find c (infos s) with
-                       | Some ci => keys_same (i_max new) (i_max ci) && keys_incl (i_min new) (i_min ci)
+                       | Some ci => max_keys_ok (gate_keys s) (i_max new) (i_max ci) && keys_incl (i_min new) (i_min ci)
                        | None => false
                        end) (children s name).
 
@@ -276,6 +294,43 @@ Definition min_ok (s : topo) (name : Z) (new : info) : bool :=
              end
         else true).
 
+(* ---------- checkGuaranteedForMin / checkParentGuaranteed (gate ElasticQuotaGuaranteeUsage) ---------- *)
+Fixpoint guar_sum (m : list (Z * info)) (cs : list Z) (acc : reslist) : option reslist :=
+  match cs with
+  | [] => Some acc
+  | c :: t => match find c m with
+              | None => None
+              | Some ci => guar_sum m t (radd acc (i_guar ci))
+              end
+  end.
+
+(* the code recurses up the parent links without a bound; the fuel (more than the number of
+   quotas) is never exhausted on a record whose parent links reach the root *)
+Fixpoint parent_guar_ok (s : topo) (fuel : nat) (newg : reslist) (self parent : Z) : bool :=
+  match fuel with
+  | O => false
+  | S f =>
+      if parent =? ROOT then false
+      else match find parent (infos s), find parent (hier s) with
+           | Some p, Some cs =>
+               match guar_sum (infos s) (sremove self cs) newg with
+               | None => false
+               | Some all =>
+                   let npg := rmax (i_min p) all in
+                   if rlec npg (i_guar p) then true
+                   else parent_guar_ok s f npg parent (i_parent p)
+               end
+           | _, _ => false
+           end
+  end.
+
+Definition guar_ok (s : topo) (name : Z) (new : info) : bool :=
+  if i_force new then true
+  else if i_tree new =? 0 then true
+  else if i_tree_root new then true
+  else if rlec (i_min new) (i_guar new) then true
+  else parent_guar_ok s (S (length (infos s))) (rmax (i_min new) (i_guar new)) name (i_parent new).
+
 (* ---------- validateQuotaTopology ---------- *)
 Definition topology_ok (s : topo) (pods : list pod) (old : option info) (name : Z) (new : info)
            (old_ns : list Z) : bool :=
@@ -284,7 +339,8 @@ Definition topology_ok (s : topo) (pods : list pod) (old : option info) (name : 
     is_parent_change_ok s pods old name new old_ns
     && tree_ok s old name new
     && (if (i_parent new =? ROOT) && negb (i_is_parent new) then true
-        else parent_ok s name (i_parent new) && keys_ok s name new && min_ok s name new).
+        else parent_ok s name (i_parent new) && keys_ok s name new && min_ok s name new
+             && (negb (gate_guar s) || guar_ok s name new)).
 
 (* ---------- state updates ---------- *)
 Definition hier_add_child (p c : Z) (h : list (Z * list Z)) : list (Z * list Z) :=
@@ -307,7 +363,7 @@ Definition add_code (s : topo) (pods : list pod) (q : quota) : Z :=
 
 Definition add_apply (s : topo) (q : quota) : topo :=
   let i := info_of q in
-  mkTopo (mset (q_name q) i (infos s))
+  mkTopo (gate_keys s) (gate_guar s) (mset (q_name q) i (infos s))
          (hier_add_child (i_parent i) (q_name q) (mset (q_name q) [] (hier s)))
          (ns_bind (q_name q) (ann_ns q) (nsmap s)).
 
@@ -356,7 +412,7 @@ Definition update_apply (s : topo) (o n : quota) : topo :=
   | None => s
   | Some oi =>
       let i := info_of n in
-      mkTopo (mset (q_name n) i (infos s))
+      mkTopo (gate_keys s) (gate_guar s) (mset (q_name n) i (infos s))
              (if i_parent oi =? i_parent i then hier s
               else hier_add_child (i_parent i) (q_name n) (hier_del_child (i_parent oi) (q_name n) (hier s)))
              (ns_bind (q_name n) (ann_ns n) (ns_unbind (ann_ns o) (nsmap s)))
@@ -381,7 +437,7 @@ Definition delete_apply (s : topo) (q : quota) : topo :=
   match find (q_name q) (infos s) with
   | None => s
   | Some i =>
-      mkTopo (mremove (q_name q) (infos s))
+      mkTopo (gate_keys s) (gate_guar s) (mremove (q_name q) (infos s))
              (mremove (q_name q) (hier_del_child (i_parent i) (q_name q) (hier s)))
              (ns_unbind (ann_ns q) (nsmap s))
   end.
@@ -414,7 +470,7 @@ Definition step (s : topo) (r : req) : topo :=
        end
   else s.
 
-Definition run (rs : list req) : topo := fold_left step rs init_topo.
+Definition run (g : bool * bool) (rs : list req) : topo := fold_left step rs (init_topo g).
 
 (* the list of (accepted?, topology after) for every request, in order *)
 Fixpoint trace (s : topo) (rs : list req) : list (bool * topo) :=
